@@ -28,20 +28,20 @@ EDITS = {
     'fix_parameter': PARAM_KINDS,
     'unfix_parameter': PARAM_KINDS,
     'set_lower_bounds': PARAM_KINDS,
-    'add_covariate_effect': CODE_KINDS + ['THETA'],
+    'add_covariate_effect': CODE_KINDS + ['THETA', 'SIZES'],
     # pharmpy's component is the list of execution steps: $ESTIMATION, $COVARIANCE and the $TABLE records (predictions /
     # residuals of the step) are regenerated together
     'set_estimation_step': ['ESTIMATION', 'COVARIANCE', 'TABLE'],
     'add_estimation_step': ['ESTIMATION', 'COVARIANCE', 'TABLE'],
     'remove_parameter_uncertainty_step': ['ESTIMATION', 'COVARIANCE', 'TABLE'],
     'add_parameter_uncertainty_step': ['ESTIMATION', 'COVARIANCE', 'TABLE'],
-    'add_iiv': CODE_KINDS + ['OMEGA', 'ABBREVIATED', 'THETA'],
+    'add_iiv': CODE_KINDS + ['OMEGA', 'ABBREVIATED', 'THETA', 'SIZES'],
     'remove_iiv': CODE_KINDS + ['OMEGA', 'ABBREVIATED'],
     'create_joint_distribution': ['OMEGA'],
     'set_additive_error_model': CODE_KINDS + ['SIGMA', 'THETA'],
     'set_proportional_error_model': CODE_KINDS + ['SIGMA', 'THETA'],
     'set_description': ['PROBLEM'],
-    'add_individual_parameter': CODE_KINDS + ['THETA'],
+    'add_individual_parameter': CODE_KINDS + ['THETA', 'SIZES'],
 }
 
 
@@ -106,6 +106,55 @@ def mutate_valid(rng, text):
     return '\n'.join(lines)
 
 
+def theta_model(n, sizes):
+    """A $PRED model with n thetas (one $THETA record each); `sizes` puts the $SIZES record NONMEM needs at the top."""
+    lines = []
+    if sizes:
+        lines.append(f'$SIZES LTH={n}')
+    lines += ['$PROBLEM n thetas', '$INPUT ID TIME AMT WGT APGR DV FA1 FA2', '$DATA pheno.dta IGNORE=@', '$PRED']
+    terms = [f'THETA({i})' for i in range(1, n + 1)]
+    for k in range(0, n, 8):
+        lines.append(f'T{k // 8} = ' + ' + '.join(terms[k:k + 8]))
+    lines.append('Y = ' + ' + '.join(f'T{k // 8}' for k in range(0, n, 8)) + ' + ETA(1) + EPS(1)')
+    lines += ['$THETA 0.1'] * n + ['$OMEGA 0.1', '$SIGMA 0.1', '$ESTIMATION METHOD=1 MAXEVAL=99']
+    return '\n'.join(lines) + '\n'
+
+
+def comp_model(n, sizes):
+    """An ADVAN5 chain of n compartments (KiTj notation)."""
+    lines = []
+    if sizes:
+        lines.append(f'$SIZES PC={n}')
+    lines += ['$PROBLEM n compartments', '$INPUT ID TIME AMT WGT APGR DV FA1 FA2', '$DATA pheno.dta IGNORE=@',
+              '$SUBROUTINE ADVAN5 TRANS1']
+    lines.append('$MODEL ' + ' '.join(f'COMPARTMENT=(C{i}' + (' DEFDOSE' if i == 1 else '') + (' DEFOBS' if i == n else '') + ')'
+                                      for i in range(1, n + 1)))
+    lines += ['$PK', 'KT = THETA(1)*EXP(ETA(1))'] + [f'K{i}T{i + 1} = KT' for i in range(1, n)] + [f'K{n}T0 = THETA(2)']
+    lines += ['$ERROR', 'Y = F + F*EPS(1)', '$THETA (0,1)', '$THETA (0,0.1)', '$OMEGA 0.1', '$SIGMA 0.1',
+              '$ESTIMATION METHOD=1 MAXEVAL=99']
+    return '\n'.join(lines) + '\n'
+
+
+def boundary_specs():
+    """Unmodified models at the limits tested by SizesRecord.set_LTH / set_PC (defaults LTH=100, PC=30)."""
+    out = []
+    for n in (99, 100, 101, 102):
+        out.append({'seed': 'pheno', 'text': theta_model(n, n > 100), 'edits': [], 'boundary': f'thetas={n}'})
+    for n in (29, 30, 31):
+        out.append({'seed': 'pheno', 'text': comp_model(n, n > 30), 'edits': [], 'boundary': f'compartments={n}'})
+    # crossing the limit by an edit: 100 thetas + one more
+    out.append({'seed': 'pheno', 'text': theta_model(100, False), 'edits': [['add_individual_parameter', 1]],
+                'boundary': 'thetas=100+1'})
+    return out
+
+
+def gen_history(rng):
+    h = [['ins', rng.choice([0, 1, 1, 2]), rng.randrange(1000)]]
+    for _ in range(rng.choice([1, 2])):
+        h.append([rng.choice(['chg', 'chg', 'del', 'ins']), rng.randrange(3, 12), rng.randrange(1000)])
+    return h
+
+
 def gen_spec(rng):
     name, path, _ = rng.choice(SEEDS)
     text = path.read_text()
@@ -117,6 +166,9 @@ def gen_spec(rng):
         text = text.replace('$ABBREV REPLACE ETA_CL=ETA(1)\n$ABBREV REPLACE ETA_VC=ETA(2)\n\n', '')
         text = text.replace('ETA_CL', 'ETA(1)').replace('ETA_VC', 'ETA(2)')
     text = mutate_valid(rng, text)
+    if rng.random() < 0.35:
+        # a history of successive edits of the statements of the same code record
+        return {'seed': name, 'text': text, 'edits': [], 'history': gen_history(rng)}
     edits = [[rng.choice(sorted(EDITS)), rng.randrange(1000)] for _ in range(rng.choice([2, 3, 4]))]
     return {'seed': name, 'text': text, 'edits': edits}
 
@@ -125,6 +177,7 @@ def gen_spec(rng):
 _WRAPPED = False
 _CALLS = None
 _UPDATES = None
+_GENLOG = None
 _IDS = None
 _ALIVE = None
 
@@ -156,7 +209,8 @@ def _wrap():
             exc = e
         if _CALLS is not None:
             _CALLS.append({'k': 1, 'before': _recs(self.records), 'new': _recs([record]), 'old': [], 'name': '',
-                           'at': at_index, 'after': None if res is None else _recs(res.records)})
+                           'at': at_index, 'after': None if res is None else _recs(res.records),
+                           'sizes': ([[k, int(v)] for k, v in record.option_pairs.items()] if record.name == 'SIZES' else None)})
         if exc is not None:
             raise exc
         return res
@@ -196,21 +250,48 @@ def _wrap():
     from pharmpy.model.external.nonmem.records.code_record import CodeRecord
     real_us = CodeRecord.update_statements
 
+    real_gen = CodeRecord._statement_to_nodes
+
+    def _statement_to_nodes(self, defined_symbols, s, rvs, trans):
+        nodes = real_gen(self, defined_symbols, s, rvs, trans)
+        if _GENLOG is not None:
+            _GENLOG.append((id(s), len(nodes)))
+        return nodes
+
     def update_statements(self, new, rvs=None, trans=None):
-        res = real_us(self, new, rvs=rvs, trans=trans)
+        global _GENLOG
+        outer = _GENLOG
+        _GENLOG = []
+        try:
+            res = real_us(self, new, rvs=rvs, trans=trans)
+            genlog = _GENLOG
+        finally:
+            _GENLOG = outer
         if _UPDATES is not None and res is not self:
             children = self.root.children
             pos = {id(c): i + 1 for i, c in enumerate(children)}
             old = self._statements
-            script = [[int(op), k] for k, (op, _) in enumerate(diff(old, new))]
+            entries = list(diff(old, new))
+            script = [[int(op), k] for k, (op, _) in enumerate(entries)]
+            where = {}
+            for k, (op, st) in enumerate(entries):
+                if op != -1:
+                    where.setdefault(id(st), []).append(k)
+            gen = []
+            for sid, n in genlog:
+                ks = where.get(sid, [])
+                gen.append([ks.pop(0) if ks else -1, n])
             _UPDATES.append({
+                'name': self.name,
                 'verb': [isinstance(c, AttrTree) and c.rule == 'verbatim' for c in children],
                 'index': [list(map(int, e)) for e in self._index],
-                'script': script,
+                'script': script, 'gen': gen,
                 'result': [pos.get(id(c), 0) for c in res.root.children],
+                'new_index': [list(map(int, e)) for e in res._index],
             })
         return res
 
+    CodeRecord._statement_to_nodes = _statement_to_nodes
     CodeRecord.update_statements = update_statements
     _WRAPPED = True
 
@@ -288,9 +369,52 @@ def _apply(m, name, k):
     raise KeyError(name)
 
 
+def _sizes_in(m):
+    from pharmpy.model import CompartmentalSystem
+    odes = m.statements.ode_system
+    thetas = [p for p in m.parameters if p.symbol not in m.random_variables.free_symbols]
+    cs = odes is not None and isinstance(odes, CompartmentalSystem)
+    return [len(thetas), len(odes) if cs else 0, bool(cs)]
+
+
+def _reread_ok(m):
+    from pharmpy.modeling import read_model_from_string
+    try:
+        return bool(read_model_from_string(m.code).statements == m.statements)
+    except Exception:
+        return False
+
+
+def _history_step(cur, op, pos, k):
+    from pharmpy.basic import Expr
+    from pharmpy.model import Assignment, Statements
+    sts = cur.statements
+    if sts.ode_system is not None:
+        part = list(sts.before_odes)
+    else:
+        part = list(sts)
+    if op == 'ins':
+        pos = pos % (len(part) + 1)
+        free = [c for c in ('WGT', 'APGR', 'AGE', 'WT') if c in cur.datainfo.names] or ['TIME']
+        part.insert(pos, Assignment.create(Expr.symbol(f'ZZ{k}'), Expr.integer(k % 9 + 1) + Expr.symbol(free[0])))
+    elif op == 'chg':
+        pos = pos % len(part)
+        st = part[pos]
+        part[pos] = Assignment.create(st.symbol, st.expression + Expr.integer(1))
+    else:
+        zz = [i for i, st in enumerate(part) if st.symbol.name.startswith('ZZ')]
+        pos = zz[pos % len(zz)] if zz else pos % len(part)
+        del part[pos]
+    if sts.ode_system is not None:
+        new = Statements(part) + sts.ode_system + sts.after_odes
+    else:
+        new = Statements(part)
+    return cur.replace(statements=new).update_source()
+
+
 def run_spec(args):
     """Executed in a worker process.  args = (index, spec, directory)."""
-    global _CALLS, _IDS, _ALIVE, _UPDATES
+    global _CALLS, _IDS, _ALIVE, _UPDATES, _GENLOG
     import warnings
     warnings.filterwarnings('ignore')
     idx, spec, workdir = args
@@ -321,20 +445,44 @@ def run_spec(args):
         _CALLS, _UPDATES = [], []
         try:
             m_us = m.update_source()
-            out['us'] = {'after': _records_of(m_us), 'calls': _CALLS, 'updates': _UPDATES, 'exc': None}
+            out['us'] = {'after': _records_of(m_us), 'calls': _CALLS, 'updates': _UPDATES, 'exc': None,
+                         'sizes_in': _sizes_in(m_us), 'reread': True}
         except Exception as e:
-            out['us'] = {'after': None, 'calls': _CALLS, 'updates': _UPDATES, 'exc': f'{type(e).__name__}: {str(e)[:200]}'}
+            out['us'] = {'after': None, 'calls': _CALLS, 'updates': _UPDATES, 'exc': f'{type(e).__name__}: {str(e)[:200]}',
+                         'sizes_in': None, 'reread': True}
         out['edits'] = []
         for name, k in spec['edits']:
             _CALLS, _UPDATES = [], []
+            sizes_in = None
             try:
                 m2 = _apply(m, name, k)
                 after = _records_of(m2)
+                sizes_in = _sizes_in(m2)
                 exc = None
             except Exception as e:
                 after, exc = None, f'{type(e).__name__}: {str(e)[:200]}'
             out['edits'].append({'name': name, 'allowed': EDITS[name], 'after': after, 'calls': _CALLS,
-                                 'updates': _UPDATES, 'exc': exc})
+                                 'updates': _UPDATES, 'exc': exc, 'sizes_in': sizes_in, 'reread': True})
+        # a history: every step edits the statements of the result of the previous step
+        out['history'] = []
+        cur = m
+        for op, pos, k in spec.get('history', []):
+            _CALLS, _UPDATES = [], []
+            sizes_in, reread = None, True
+            try:
+                nxt = _history_step(cur, op, pos, k)
+                after = _records_of(nxt)
+                sizes_in = _sizes_in(nxt)
+                calls, updates = _CALLS, _UPDATES
+                _CALLS, _UPDATES = None, None
+                reread = _reread_ok(nxt)
+                cur = nxt
+                exc = None
+            except Exception as e:
+                calls, updates = (_CALLS or []), (_UPDATES or [])
+                after, exc = None, f'{type(e).__name__}: {str(e)[:200]}'
+            out['history'].append({'name': f'history:{op}', 'allowed': CODE_KINDS, 'after': after, 'calls': calls,
+                                   'updates': updates, 'exc': exc, 'sizes_in': sizes_in, 'reread': reread})
         _CALLS, _UPDATES = None, None
     except Exception:
         out['harness_error'] = traceback.format_exc()[-800:]
